@@ -957,6 +957,8 @@ def run(chk, drv):
     shadow_probe(chk)
     if drv is not None:
         correspond(chk, drv, obs)
+    from props import c11_call          # the call protocol: model `call` vs real calls, race probe (D45)
+    c11_call.run_extra(chk, drv)
 
 
 SHADOWED = ("timeout", "deadline", "metadata", "channel")     # attributes set by ServiceStub.__init__
@@ -980,6 +982,10 @@ def shadow_probe(chk):
 
 
 def classify(failure, known):
+    from props import c11_call
+    kid = c11_call.classify(failure, known)
+    if kid:
+        return kid
     inp = failure.get("input")
     if isinstance(inp, dict) and failure.get("kind") == "call-raised" and pykey(str(inp.get("method"))) in SHADOWED \
             and "object is not callable" in str(failure.get("detail")):
@@ -996,6 +1002,9 @@ def search(chk):
 def replay_input(inp):
     """re-runs one stored case on the current tree; returns the list of (kind, detail) failures"""
     mode = inp.get("mode")
+    if mode == "call-script":
+        from props import c11_call
+        return c11_call.replay_input(inp)
     if mode == "resolve":
         bad = resolve_fails(list(inp["stub"]), list(inp["call"]))
         return [("kw-precedence", bad)] if bad else []
@@ -1023,13 +1032,13 @@ def replay_input(inp):
 def replay(chk, rp):
     fl = rp.get("failure") or {}
     inp = fl.get("input")
-    if not isinstance(inp, dict) or ("protos" not in inp and inp.get("mode") != "resolve"):
+    if not isinstance(inp, dict) or ("protos" not in inp and inp.get("mode") not in ("resolve", "call-script")):
         return True
     return bool(replay_input(inp))
 
 
 def replay_known(chk, entry):
     w = entry.get("witness")
-    if isinstance(w, dict) and ("protos" in w or w.get("mode") == "resolve"):
+    if isinstance(w, dict) and ("protos" in w or w.get("mode") in ("resolve", "call-script")):
         return bool(replay_input(w))
     return False
